@@ -42,19 +42,21 @@ FRAME_HYPS = [
     ("fh_pre/fh_post", "the native parts of if / elif / elseif / while / not around eval_condition change no variable", ("fh_cond",)),
 ]
 
-PRELUDE = ["arr = array a b \"c d\"", "arr2 = array x \"\"", "emp = array", "m = map", "emap = map", "eset = set_new", "map_put ${m} k v", "map_put ${m} k2 \"v 2\"",
+PRELUDE = ["arr = array a b \"c d\"", "arr2 = array x \"\"", "emp = array", "m = map", "emap = map", "eset = set_new", "arreq = array x = y", "map_put ${m} k v", "map_put ${m} k2 \"v 2\"",
            "s = set_new x y", "rel = array q", "release ${rel}", "a = set hello", "b = set \"a b\"", "n = set 2",
            "scope::other::keep = set mine", "plain = set 1"]
 # argument texts (already in script syntax)
 VALID = {
-    "array_concat": [["${arr}", "${arr2}"], ["${emp}"], ["${arr}"], []],
-    "array_contains": [["${arr}", "b"], ["${arr}", "zz"], ["${arr}", "\"c d\""], ["${emp}", "x"]],
+    "array_concat": [["${arr}", "${arr2}"], ["${emp}"], ["${arr}"], [], ["${arreq}", "${arr}"], ["${arr}", "nope"], ["${arr}", "${m}"], ["${arr}", "${rel}"]],
+    "array_contains": [["${arr}", "b"], ["${arr}", "zz"], ["${arr}", "\"c d\""], ["${emp}", "x"],
+                       # an element that is exactly `=` and a searched value that names a command: data, never re-parsed
+                       ["${arreq}", "pwd"], ["${arreq}", "os_name"], ["${arreq}", "y"], ["${arreq}", "array"]],
     "array_is_empty": [["${arr}"], ["${emp}"]],
-    "array_join": [["${arr}", ","], ["${arr}", "\"\""], ["${emp}", ","], ["${arr2}", "-"]],
+    "array_join": [["${arr}", ","], ["${arr}", "\"\""], ["${emp}", ","], ["${arr2}", "-"], ["${arreq}", ","]],
     "map_contains_value": [["${m}", "v"], ["${m}", "zz"], ["${m}", "\"v 2\""], ["${emap}", "v"]],
     "map_contains_key": [["${m}", "k"], ["${m}", "zz"], ["${emap}", "k"]],
     "map_is_empty": [["${m}"], ["${emap}"]],
-    "set_from_array": [["${arr}"], ["${emp}"]],
+    "set_from_array": [["${arr}"], ["${emp}"], ["${arreq}"]],
     "set_is_empty": [["${s}"], ["${eset}"]],
     "is_windows": [[]],
     "print_env": [[]], "printenv": [[]],
@@ -262,6 +264,9 @@ def run(ck):
             tolerated = invocations if d["command"] in ("array_concat", "set_from_array", "base64") else 0
             if st == "OK" and handles > tolerated:
                 bad.append("%d collection(s) left behind that no output variable refers to (documented outputs: %d)" % (handles, tolerated))
+            # a command that REPORTS AN ERROR returns no collection: whatever it allocated on the way must be gone
+            if st == "ERR" and handles > 0:
+                bad.append("%d collection(s) left behind by an invocation that reported an error" % handles)
         if bad:
             found = True
             if len(ck.violations) < 5:
